@@ -1203,6 +1203,72 @@ def gen_api_solve():
                                  "", "end Symfc.Gen"]) + "\n"
 
 
+def gen_api_dataflow():
+    """What Symfc.solve hands to the solvers: a LENIENT extraction (facts, not failures) — the top-level statements of
+    solve, the positional arguments of every FCSolver*.solve call, the first constructor argument, and the kind of
+    every statement of every dispatch branch. Props C05/C06/C13 prove from these facts that the stored dataset reaches
+    the solver unchanged and that nothing else happens in a branch."""
+    rel = "api_symfc.py"
+    mod = parse(rel)
+    sv = find_func(mod, "solve", rel, "Symfc")
+    sb = strip_doc(sv.body)
+    top = []
+    dispatch = None
+    for st in sb:
+        if isinstance(st, ast.If) and ast.unparse(st.test).startswith("orders == ") and dispatch is None:
+            dispatch = st
+            top.append("<dispatch>")
+        else:
+            top.append(ast.unparse(st))
+    if dispatch is None:
+        fail(rel, sv, "solve: no `orders == (...)` dispatch found")
+    args_all, ctor_all, kinds_all = [], [], []
+    node = dispatch
+    while True:
+        kinds = []
+        for st in node.body:
+            src = ast.unparse(st)
+            val = getattr(st, "value", None)
+            tgt = st.targets[0] if isinstance(st, ast.Assign) and len(st.targets) == 1 else getattr(st, "target", None)
+            if isinstance(st, (ast.Assign, ast.AnnAssign)) and isinstance(tgt, ast.Name) \
+                    and isinstance(val, ast.Subscript) and ast.unparse(val.value) == "self._basis_set":
+                kinds.append("basis")
+            elif isinstance(st, ast.Assign) and isinstance(tgt, ast.Name) and isinstance(val, ast.Call) \
+                    and isinstance(val.func, ast.Attribute) and val.func.attr == "solve" \
+                    and isinstance(val.func.value, ast.Call) and ast.unparse(val.func.value.func).startswith("FCSolver"):
+                kinds.append("solve")
+                args_all.append([ast.unparse(a) for a in val.args]
+                                + [f"{k.arg}={ast.unparse(k.value)}" for k in val.keywords if k.arg != "batch_size"])
+                ctor = val.func.value
+                ctor_all.append(ast.unparse(ctor.args[0]).replace(" ", "") if ctor.args else "")
+            elif isinstance(st, ast.If) and ast.unparse(st.test) == "is_compact_fc":
+                kinds.append("select")
+            elif isinstance(st, ast.Assign) and isinstance(tgt, ast.Subscript) \
+                    and ast.unparse(tgt.value) == "self._force_constants" and isinstance(val, ast.Name):
+                kinds.append("store")
+            else:
+                kinds.append("other: " + src[:60].replace('"', "'").replace("\n", " "))
+        kinds_all.append(kinds)
+        if len(node.orelse) == 1 and isinstance(node.orelse[0], ast.If):
+            node = node.orelse[0]
+        elif not node.orelse:
+            break
+        else:
+            kinds_all.append(["other: else branch"])
+            break
+    rec(rel, sv, "solve: dataflow into the solvers", {"top": top, "args": args_all, "ctor": ctor_all, "kinds": kinds_all})
+
+    def sl(xs):
+        return "[" + ", ".join(json.dumps(x) for x in xs) + "]"
+    return "\n".join(["/- REGENERATED by tools/extract.py from api_symfc.py — do not edit. -/",
+                      "namespace Symfc.Gen", "",
+                      f"def solveTopLevel : List String := {sl(top)}",
+                      "def solverDatasetArgs : List (List String) := [" + ", ".join(sl(a) for a in args_all) + "]",
+                      f"def solverBasisArgs : List String := {sl(ctor_all)}",
+                      "def solveBranchKinds : List (List String) := [\n  " + ",\n  ".join(sl(k) for k in kinds_all) + "]",
+                      "", "end Symfc.Gen"]) + "\n"
+
+
 def gen_api_compute():
     rel = "api_symfc.py"
     mod = parse(rel)
@@ -1897,6 +1963,7 @@ GENERATORS = {
     "ApiDataset": gen_api_dataset,
     "ApiSolve": gen_api_solve,
     "ApiCompute": gen_api_compute,
+    "ApiDataflow": gen_api_dataflow,
     "ApiAccess": gen_api_access,
     "Api": gen_api,
     "Eig": gen_eig,
